@@ -14,6 +14,7 @@ pub enum Obj {
     SsCtx(crate::stream::ss::SsCtx),
     SsuClient(crate::ssudp::SsuClient),
     SsuServer(crate::ssudp::SsuServer),
+    World(crate::e2e::World),
     Stream(crate::stream::Boxed),
 }
 
@@ -148,6 +149,41 @@ impl Interp {
                     Err(_) => "err".into(),
                 }
             }
+            ["e2e.start", name, ..] => {
+                let (Some(proto), Some(cipher), Some(spw), Some(cpw), Some(users), Some(mode)) = (kv(t, "protocol"), kv(t, "cipher"), kv(t, "spw"), kv(t, "cpw"), kv(t, "users"), kv(t, "mode")) else { return "bad-op".into() };
+                match crate::e2e::World::start(proto, cipher, spw, cpw, &crate::stream::parse_users(users), mode, kv(t, "ws") == Some("1")) {
+                    Ok(w) => {
+                        self.objs.insert(name.to_string(), Obj::World(w));
+                        "ok".into()
+                    }
+                    Err(_) => "err".into(),
+                }
+            }
+            ["e2e.tcp", name, ..] => {
+                let Some(Obj::World(w)) = self.objs.get(*name) else { return "bad-op".into() };
+                let (Some(kind), Some(host), Some(up), Some(down), Some(seed)) = (kv(t, "kind"), kv(t, "host"), kv(t, "up"), kv(t, "down"), kv(t, "seed").and_then(|x| x.parse::<u64>().ok())) else { return "bad-op".into() };
+                let up = crate::e2e::payload(seed, &crate::e2e::parse_sizes(up));
+                let down = crate::e2e::payload(seed ^ 0xabcd, &crate::e2e::parse_sizes(down)).concat();
+                w.tcp_flow(kind, host, &up, &down, kv(t, "close") == Some("target"))
+            }
+            ["e2e.udp", name, ..] => {
+                let Some(Obj::World(w)) = self.objs.get(*name) else { return "bad-op".into() };
+                let (Some(sizes), Some(seed)) = (kv(t, "sizes"), kv(t, "seed").and_then(|x| x.parse::<u64>().ok())) else { return "bad-op".into() };
+                w.udp_flow(&crate::e2e::payload(seed, &crate::e2e::parse_sizes(sizes)))
+            }
+            ["e2e.fault", name, kind, junk] => {
+                let (Some(Obj::World(w)), Some(j)) = (self.objs.get(*name), unhex(junk)) else { return "bad-op".into() };
+                w.fault(kind, &j)
+            }
+            ["e2e.alive", name] => {
+                let Some(Obj::World(w)) = self.objs.get(*name) else { return "bad-op".into() };
+                w.alive()
+            }
+            ["e2e.stop", name] => {
+                self.objs.remove(*name);
+                "ok".into()
+            }
+            ["e2e.fds"] => crate::e2e::open_fds().to_string(),
             ["hs.http", method, path] => {
                 let (Some(m), Some(p)) = (unhex(method).and_then(|b| String::from_utf8(b).ok()), unhex(path).and_then(|b| String::from_utf8(b).ok())) else { return "bad-op".into() };
                 use octo_squirrel_client::client::verif::handshake as hs;
